@@ -543,6 +543,25 @@ def check_step(st, answer):
     if is_err and st["published"]:
         out.append(("impl-violates-law", "a request answered with an error publishes nothing",
                     {"resp": resp, "published": st["published"]}, None))
+    op = st["op"]
+    if resp["status"] == 200 and op.get("action") == "DescribeStateMachine" and isinstance(resp.get("body"), dict):
+        # described back unchanged: the text decodes to the stored value (the model proves text = render(value))
+        try:
+            arn = resp["body"]["stateMachineArn"]
+            same = json.loads(resp["body"]["definition"]) == before["machines"][arn]["definition"]
+        except Exception:
+            same = False
+        if not same:
+            out.append(("impl-violates-law", "a definition is described back unchanged", {"resp": resp}, None))
+    if resp["status"] == 200 and op.get("action") == "CreateStateMachine" and isinstance(resp.get("body"), dict):
+        try:
+            arn = resp["body"]["stateMachineArn"]
+            same = after["machines"][arn]["definition"] == json.loads(op["body"]["definition"])
+        except Exception:
+            same = False
+        if not same:
+            out.append(("impl-violates-law", "a created definition is stored as the value its text denotes",
+                        {"resp": resp, "after": after}, None))
     if st["kind"] == "frame":
         if not (resp["status"] == 400 and "text" in resp):
             out.append(("impl-differs-from-spec", "a malformed frame is refused with a plain 400",
